@@ -82,18 +82,21 @@ class MultiFunction(Generic[T, P]):
             return method(v, *args, **kwargs)
         raise NotImplementedError
 
-    def _reset_cache(self):
+    def _reset_cache(self, hierarchy: IPersistentMap | None = None):
         """Reset the local cache to the base method mapping.
 
         Should be called after methods are added or removed or after preferences are
-        altered."""
-        # Does not use a lock to avoid lock reentrance
+        altered. Callers must hold the lock."""
         self._cache = self._methods
-        self._cached_hierarchy = self._hierarchy.deref()
+        self._cached_hierarchy = (
+            self._hierarchy.deref() if hierarchy is None else hierarchy
+        )
 
-    def _is_a(self, tag: T, parent: T) -> bool:
+    def _is_a(self, tag: T, parent: T, hierarchy: IPersistentMap | None = None) -> bool:
         """Return True if `tag` can be considered a `parent` type using `isa?`."""
-        return bool(self._isa.value(self._hierarchy.deref(), tag, parent))
+        if hierarchy is None:
+            hierarchy = self._hierarchy.deref()
+        return bool(self._isa.value(hierarchy, tag, parent))
 
     def _has_preference(self, preferred_key: T, other_key: T) -> bool:
         """Return True if this multimethod has `preferred_key` listed as a preference
@@ -101,10 +104,12 @@ class MultiFunction(Generic[T, P]):
         others = self._prefers.val_at(preferred_key)
         return others is not None and other_key in others
 
-    def _precedes(self, tag: T, parent: T) -> bool:
+    def _precedes(
+        self, tag: T, parent: T, hierarchy: IPersistentMap | None = None
+    ) -> bool:
         """Return True if `tag` should be considered ahead of `parent` for method
         selection."""
-        return self._has_preference(tag, parent) or self._is_a(tag, parent)
+        return self._has_preference(tag, parent) or self._is_a(tag, parent, hierarchy)
 
     def add_method(self, key: T, method: Method[T, P]) -> None:
         """Add a new method to this function which will respond for key returned from
@@ -116,13 +121,26 @@ class MultiFunction(Generic[T, P]):
     def _find_and_cache_method(self, key: T) -> Method[T, P] | None:
         """Find and cache the best method for dispatch value `key`."""
         with self._lock:
+            # Resolve against a single hierarchy value and only cache the result
+            # while that same value is the one the cache is valid for, otherwise a
+            # concurrent hierarchy change could leave a stale entry behind.
+            hierarchy = self._hierarchy.deref()
+            if self._cached_hierarchy != hierarchy:
+                self._reset_cache(hierarchy)
+
+            cached_val = self._cache.val_at(key)
+            if cached_val is not None:
+                return cached_val
+
             best_key: T | None = None
             best_method: Method | None = None
             for method_key, method in self._methods.items():
-                if self._is_a(key, method_key):
-                    if best_key is None or self._precedes(method_key, best_key):
+                if self._is_a(key, method_key, hierarchy):
+                    if best_key is None or self._precedes(
+                        method_key, best_key, hierarchy
+                    ):
                         best_key, best_method = method_key, method
-                    if not self._precedes(best_key, method_key):
+                    if not self._precedes(best_key, method_key, hierarchy):
                         raise runtime.RuntimeException(
                             "Cannot resolve a unique method for dispatch value "
                             f"'{key}'; '{best_key}' and '{method_key}' both match and "
@@ -140,12 +158,10 @@ class MultiFunction(Generic[T, P]):
     def get_method(self, key: T) -> Method[T, P] | None:
         """Return the method which would handle this dispatch key or None if no method
         defined for this key and no default."""
-        if self._cached_hierarchy != self._hierarchy.deref():
-            self._reset_cache()
-
-        cached_val = self._cache.val_at(key)
-        if cached_val is not None:
-            return cached_val
+        if self._cached_hierarchy == self._hierarchy.deref():
+            cached_val = self._cache.val_at(key)
+            if cached_val is not None:
+                return cached_val
 
         return self._find_and_cache_method(key)
 
